@@ -11,6 +11,7 @@ collision of the real hash (such as `hash(-1.0) == hash(-2.0)`) shows up as a di
 -/
 import Pyiga.Proofs.VFormKey
 import Pyiga.Proofs.SLP
+import Pyiga.Proofs.CompileHist
 import Pyiga.Gen.HashKeys
 
 namespace Pyiga.Props.C13
@@ -37,6 +38,14 @@ theorem cache_sound {Asm : Type} (gen : Form × Bool → Asm) (hk : KeyTableComp
     (rs : List (Form × Bool)) :
     (compileAll gen kt t c rs).2 = rs.map gen :=
   (compileAll_sound gen kt hk t ht rs c hc).1
+
+/-- **history_sound.**  The same for histories that mix `compile_vform(vf, on_demand)` and `compile_vforms([…])` — the model
+contains `compile_vforms` exactly as coded (no cache lookup, no cache update) and is diffed against the real functions on random
+histories (driver `hist`): every class returned for every requested form is the one generated from that form. -/
+theorem history_sound {Asm : Type} (gen : Form × Bool → Asm) (hk : KeyTableComplete kt = true)
+    (ht : FKeyTableComplete t = true) (c : AsmCache Asm) (hc : CacheInv gen kt t c) (qs : List CompileReq) :
+    (compileHistory gen kt t c qs).2 = qs.map (fun q => q.forms.map gen) :=
+  (compileHistory_sound gen kt hk t ht qs c hc).1
 
 /-- the theorem for the tables extracted from the tree under test *now* -/
 theorem cache_sound_current {Asm : Type} (gen : Form × Bool → Asm) (c : AsmCache Asm)
